@@ -811,7 +811,9 @@ func compileAssignStmt(context *funcContext, stmt *ast.AssignStmt) { // {{{
 				opcode = OP_SETTABLEKS
 			}
 			code.AddABC(opcode, acs[i].ec.reg, acs[i].keyrk, acs[i].valuerk, sline(ex))
-			if !opIsK(acs[i].valuerk) {
+			// a value taken directly from a constant or from a local's own
+			// register did not occupy a temporary
+			if !opIsK(acs[i].valuerk) && acs[i].valuerk >= context.RegTop() {
 				reg -= 1
 			}
 		}
